@@ -24,7 +24,8 @@ EXPLANATION = (
     '(the store is edge-dominated by the filename comparison and the traversal stops there; the traversal yields the outermost frame first). '
     'R3 the predicate that recognises the opening line of a docstring is evaluated on the finite domain {legal string prefixes} x {triple quotes} '
     'and must accept every combination; the def-line pattern must accept `def` and `async def`. That the inputs (AST line numbers, traceback '
-    'contents) are right for every layout is not decided; loop-carried sums are outside the evaluator.')
+    'contents) are right for every layout is not decided; loop-carried sums are outside the evaluator.'
+    " R3b REGEX-FACT on the folded trailing-comment pattern of both docstring locators (12 samples). R6 values of failed_line_offset()/failed_lineno() are never tested for truth (0 is a line). R7 the failing line of a compile error is the `lineno` attribute. R8 every split of the docstring in split_google_docblocks is at '\\n' only.")
 DECIDES = ['AFFINE line arithmetic (per branch)', 'first doctest frame wins', 'finite evaluation of the docstring-prefix / def-line predicates']
 NOT_DECIDED = ['correctness of ast line numbers and traceback contents for every layout', 'loop-carried offsets (curr_offset, _package_groups.lineno, split_google_docblocks line_offset)']
 
